@@ -154,6 +154,9 @@ func scenariosFor(prop string) []scn {
 		both(flowParams{Sources: 1, Records: 3, Batch: 3, Dests: 1, AckMenu: onlyOK, SrcPositions: "dup", Stop: "force"}, 1, 2)
 		both(flowParams{Sources: 1, Records: 3, Batch: 3, Dests: 1, AckMenu: okNack, SrcPositions: "empty", Stop: "force"}, 1, 2)
 		both(flowParams{Sources: 1, Records: 2, Batch: 1, Dests: 1, AckMenu: onlyOK, ReadMenu: []string{"ok", "err", "fatal"}, Stop: "force"}, 2, 3)
+		// a minimal record (position and key only: no metadata, no payload), delivered / rejected / dead-lettered / processed
+		both(flowParams{Sources: 1, Records: 3, Batch: 3, Dests: 1, AckMenu: okNack, SrcPositions: "bare", Stop: "force"}, 1, 2)
+		both(flowParams{Sources: 1, Records: 3, Batch: 1, Dests: 2, AckMenu: okNack, SrcPositions: "bare", Procs: []procParam{{ID: "pp", Kinds: []string{"p", "e", "p"}}}, Stop: "force"}, 1, 2)
 		// an error record without an error, under a DLQ that takes everything / takes some / is off (the default)
 		for _, w := range [][2]int{{0, 0}, {2, 1}, {1, 0}} {
 			both(flowParams{Sources: 1, Records: 3, Batch: 3, Dests: 1, AckMenu: onlyOK, Window: w[0], Thresh: w[1], Procs: []procParam{{ID: "pp", Kinds: []string{"p", "nilerr", "p"}}}, Stop: "force"}, 1, 2)
